@@ -33,7 +33,14 @@ such case is a unit, an obligation or a scenario that now exists:
   on the rows without action.  C13c -> `sel` scenario "own internal table with several rows per event" (the contract caught it, no native
   witness existed).  C16c -> `ser` scenario with front-end data of the CONTAINED machine (same).  C18c (type-level: forwarding rows) ->
   `kleene` scenarios with exact / base / Kleene triggers inside a submachine - missed by both tiers before that.  C07c = C13b found again.
-* "thorough tier only" (type-level changes, no contract reaches them; the native families decide): C17b, C17c, C13b, C07c, C18c.
+* d-wave: C03d was MISSED at first although the obligation `rejected-guard-changes-nothing` failed - it was labelled C02 only.  This was the
+  fourth miss of that kind, so the labels were reviewed as a whole: 219 obligations now name every property whose statement they bear on, and
+  `tools/label_index.py` makes a unit run under every property its obligations name (10.2).  C02d -> the traversal a machine uses for
+  its own substates must be the non-recursive one (obligation on every other `visit` spelling) + `hist` scenario "nested submachine below
+  history".  C09d -> the declared-target-type argument of `convert_event_and_execute_entry` labelled C09 + explicit entry through every row
+  kind in `hist`.  C10d -> tolerant completion-helper rewrite (was drift) + `defer` scenario "handled in one region, deferred in another".
+  C06d (type-level) -> `sel` own-internal-table scenario tagged C06/C07.  C11d -> caught; `block` scenario "terminate and interrupt both active" added as witness.
+* "thorough tier only" (type-level changes, no contract reaches them; the native families decide): C17b, C17c, C13b, C07c, C18c, C06d.
 
 ''' % n
 s = s[:i] + head + table + '\n' + s[j:]
